@@ -4,7 +4,7 @@
    bullet list, "I(" list item, ")" close.  Builder actions grow the token stream; Render actions
    consume it one token (= one render_* call) at a time. *)
 EXTENDS Naturals, Sequences, FiniteSets, TLC
-CONSTANTS MaxNodes, MaxDepth, Fixed     \* Fixed = TRUE: the renderer after the D4 repair (blank line after a heading keeps the container prefix; a quote resets skip on exit)
+CONSTANTS MaxNodes, MaxDepth, Leafs, FixedT, Fixed     \* Fixed = TRUE: the renderer after the D4 repair (blank line after a heading keeps the container prefix; a quote resets skip on exit)
 VARIABLES toks, open,            \* builder: token stream so far, stack of open container kinds
           mode,                  \* "build" | "render" | "done"
           k,                     \* next token to render
@@ -14,7 +14,8 @@ VARIABLES toks, open,            \* builder: token stream so far, stack of open 
           lines                  \* emitted: [p |-> prefix markers, b |-> body, exp |-> expected markers]
 vars == <<toks, open, mode, k, prefix, second, suppress, skip, tight, stack, ctx, lines>>
 
-Leaf == {"P", "H", "B", "C"}
+Leaf == Leafs       \* subset of {"P", "H", "B", "C", "T" (table: header, delimiter, one row), "R" (thematic break)}
+\* FixedT = TRUE: render_table emits the container prefixes and resets the blank-line flags (repair of D43 / D34)
 Nodes == Cardinality({j \in 1..Len(toks) : toks[j] # ")"})
 
 Init == /\ toks = <<>> /\ open = <<>> /\ mode = "build" /\ k = 1
@@ -67,6 +68,16 @@ RBlank == /\ T = "B"
 RCode == /\ T = "C" /\ lines' = lines \o <<Emit(prefix, "fence"), [p |-> second, b |-> "fence", exp |-> [j \in 1..Len(ctx) |-> IF ctx[j].kind = "Q" THEN "Q" ELSE "I"]]>>
          /\ ctx' = Used /\ prefix' = second /\ skip' = FALSE /\ suppress' = FALSE
          /\ UNCHANGED <<second, tight, stack>> /\ Adv
+ExpCont == [j \in 1..Len(ctx) |-> IF ctx[j].kind = "Q" THEN "Q" ELSE "I"]
+RTable == /\ T = "T"
+          /\ lines' = lines \o <<[p |-> IF FixedT THEN prefix ELSE <<>>, b |-> "thead", exp |-> ExpNonBlank],
+                                  [p |-> IF FixedT THEN second ELSE <<>>, b |-> "tdelim", exp |-> ExpCont],
+                                  [p |-> IF FixedT THEN second ELSE <<>>, b |-> "trow", exp |-> ExpCont]>>
+          /\ ctx' = Used
+          /\ IF FixedT THEN prefix' = second /\ skip' = FALSE /\ suppress' = FALSE ELSE UNCHANGED <<prefix, skip, suppress>>
+          /\ UNCHANGED <<second, tight, stack>> /\ Adv
+RRule == /\ T = "R" /\ lines' = Append(lines, Emit(prefix, "hr")) /\ ctx' = Used /\ prefix' = second
+         /\ skip' = (IF FixedT THEN FALSE ELSE skip) /\ UNCHANGED <<second, suppress, tight, stack>> /\ Adv
 RQuoteIn == /\ T = "Q(" /\ skip' = FALSE
             /\ stack' = Append(stack, [kind |-> "Q", oldP |-> prefix, oldS |-> second, oldTight |-> tight, start |-> Len(lines)])
             /\ prefix' = Append(prefix, "Q") /\ second' = Append(second, "Q")
@@ -99,7 +110,7 @@ RClose == /\ T = ")" /\ LET f == stack[Len(stack)] IN
           /\ skip' = (IF Fixed /\ stack[Len(stack)].kind = "Q" THEN FALSE ELSE skip) /\ Adv
 Finish == /\ mode = "render" /\ k > Len(toks) /\ mode' = "done"
           /\ UNCHANGED <<toks, open, k, prefix, second, suppress, skip, tight, stack, ctx, lines>>
-RenderStep == mode = "render" /\ k <= Len(toks) /\ (RPara \/ RHead \/ RBlank \/ RCode \/ RQuoteIn \/ RListIn \/ RItemIn \/ RClose)
+RenderStep == mode = "render" /\ k <= Len(toks) /\ (RPara \/ RHead \/ RBlank \/ RCode \/ RTable \/ RRule \/ RQuoteIn \/ RListIn \/ RItemIn \/ RClose)
 Next == Build \/ StartRender \/ RenderStep \/ Finish
 Spec == Init /\ [][Next]_vars
 
